@@ -63,7 +63,7 @@ theorem c03_gate_iff (w : W) (p : Nat) (lf : LF) (d : Dg) :
     connects by any peers that starts without bindings, a write is let through iff its function is announced writable
     and the SPEC registry — folded from the registry events of the earlier operations: granted, deleted, entity gone,
     entities no longer listed by a full announcement, peer gone — holds (server, connection, client) at that moment. No caching can hide: the gate is a function of
-    the state. `opOk`: every "entity added" notification announces at least one feature of the entity. -/
+    the state. `opOk` (decidable, `featured`): the domain of the model — every entity an operation announces as new carries a feature. -/
 theorem c03_follows_registry (w0 : W) (ops : List Op) (hu : w0.cfg.unbindDisjunct = false)
     (he : w0.cfg.entRemovalAnyPeer = false) (h0 : w0.binds = []) (hF : InvF w0) (hok : ∀ op ∈ ops, opOk w0.fresh op)
     (p : Nat) (lf : LF) (d : Dg) :
@@ -155,16 +155,17 @@ example :
       [(1, .result (some 11) 1 ([0], 0) ([0], 0) (some 0)), (1, .readReq 901 ([0], 0) ([0], 0))] ∧
     gateOk (step (run fullW pre) (.full 1 [[0], [1]] 11 true)).1 1 witLF1 (hierD ([1], 1) ([1], 1)) = true := by decide
 
-example : ∀ op ∈ witEntOps ++ [Op.entAdd 2 [1] 12 true], opOk cleanW.fresh op := by
-  intro op hop
-  simp only [witEntOps, List.cons_append, List.nil_append, List.mem_cons, List.not_mem_nil, or_false] at hop
-  rcases hop with rfl | rfl | rfl | rfl | rfl
-  · exact True.intro
-  · exact True.intro
-  · exact True.intro
-  · exact True.intro
-  · show (cleanW.fresh.feats.any fun f => f.ent = [1]) = true
-    decide
+example : ∀ op ∈ witEntOps ++ [Op.entAdd 2 [1] 12 true, Op.full 1 [[0], [1]] 13 true], opOk cleanW.fresh op := by decide
+
+/-- outside the domain: an "added" entry for an entity the announcement set has no feature for -/
+example : ¬ opOk cleanW.fresh (Op.entAdd 2 [7] 12 true) := by decide
+
+/-- a removal entry for the device-information entity [0] is skipped, as in the code: the peer stays connected, nothing
+    is a registry event, the acknowledgement is sent -/
+example :
+    connected (step (run cleanW [.conn 1]) (.entRem 1 [0] 9 true)).1 1 = true ∧
+    evOf (run cleanW [.conn 1]) (.entRem 1 [0] 9 true) = .other ∧
+    (step (run cleanW [.conn 1]) (.entRem 1 [0] 9 true)).2 = [(1, .result (some 9) 0 ([0], 0) ([0], 0) (some 0))] := by decide
 
 /-- a denied and an accepted write in a concrete world: the denied one yields exactly one error and no notification
     although a subscriber exists -/
